@@ -1,6 +1,6 @@
 (** C10 — changing representation loses nothing: the obligations, written out in full. *)
 From Coq Require Import List NArith ZArith String.
-From SK Require Import lib.LGraph lib.StrJoin model.C10_Model model.C10_Text model.C10_Rxn proof.C10_Rxn proof.C10_ImpH proof.C10_HRoundIts proof.C10_GmlEHFull proof.C10_ReindexEHFull proof.C10_Text proof.C10_Proof proof.C10_Hydrogen proof.C10_Routes proof.C10_GmlWrite proof.C10_HRound proof.C10_Routes2 proof.C10_Reindex proof.C10_MolGraph proof.C10_Smart proof.C10_GmlEH proof.C10_Select proof.C10_MolOk proof.C10_Full proof.C10_Attrs proof.C10_Light proof.C10_ReindexEH.
+From SK Require Import lib.LGraph lib.StrJoin model.C10_Model model.C10_Text model.C10_Rxn proof.C10_Rxn proof.C10_ImpH proof.C10_HRoundIts proof.C10_GmlEHFull proof.C10_ReindexEHFull proof.C10_Renumber proof.C10_Text proof.C10_Proof proof.C10_Hydrogen proof.C10_Routes proof.C10_GmlWrite proof.C10_HRound proof.C10_Routes2 proof.C10_Reindex proof.C10_MolGraph proof.C10_Smart proof.C10_GmlEH proof.C10_Select proof.C10_MolOk proof.C10_Full proof.C10_Attrs proof.C10_Light proof.C10_ReindexEH.
 Import ListNotations.
 Local Open Scope Z_scope.
 
@@ -594,3 +594,65 @@ Theorem C10_reindex_explicit_h_needs_positive_ids :
     List.length (gnodes (gml_to_its (its_to_gml c false true true))) = 2%nat.
 Proof. exact reindex_eh_needs_positive_ids. Qed.
 Print Assumptions C10_reindex_explicit_h_needs_positive_ids.
+
+(** Full ITS vs its centre for an ARBITRARY ITS graph I (any networkx graph whose nodes carry typesGH and whose centre is in the
+    round-trip domain — not only ITSGraph of molecule graphs), explicit_hydrogen either way: the rule exported from I with
+    core=True and the rule exported from get_rc I both read back as exactly the centre (generalises C10_two_routes_centre to
+    explicit_hydrogen=True: a centre carries no hcount, so only the unchanged bonds are added to the context). *)
+Theorem C10_two_routes_centre_explicit_h :
+  forall (I : gr) (explicit_h : bool), gwfb I = true -> all_tgh I = true -> its_ok (get_rc I) = true ->
+    let c := get_rc I in
+    let reads_c := fun X : gr =>
+      (forall n, has_node X n = has_node c n) /\
+      (forall n a, label c n = Some a ->
+         label X n = Some (gml_node n (tg_el (tG_of a)) (tg_ch (tG_of a)) (tg_ch (tH_of a)))) /\
+      (forall u v, adj X u v = adj c u v) in
+    reads_c (gml_to_its (its_to_gml I true false explicit_h)) /\ reads_c (gml_to_its (its_to_gml c true false explicit_h)).
+Proof. exact two_routes_centre_any. Qed.
+Print Assumptions C10_two_routes_centre_explicit_h.
+
+(** RENUMBERING A REACTION RENUMBERS ITS RULE ("all corpus reactions and their renumberings").  Let (r', p') be (r, p) with every
+    atom id n replaced by s n: s injective on the atoms, r' has exactly the atoms s n, the dictionary of s n in r' is the one of n
+    in r except for atom_map, and the bond of (s u, s v) is the bond of (u, v) — the same for p, p' (what renumbering the atom
+    maps of a reaction string does to rsmi_to_graph's output; proof/C10_Renumber.v rename_graph_renamed: the literal renumbering
+    of a graph by an injective map is such a pair).  Then the rule smart_to_gml writes for (r', p') reads back as the rule of
+    (r, p) renumbered by s: exactly the atoms s n, the same element and charges at s n as at n, the same (before, after) bond
+    dictionary at (s u, s v) as at (u, v).  explicit_hydrogen either way; any bond enumerations. *)
+Theorem C10_rule_renumbering :
+  forall (s : N -> N) (r p r' p' : gr) (eo eo' : list (N * N)) (explicit_h : bool),
+    let ren := fun G G' : gr =>
+      (forall a b, has_node G a = true -> has_node G b = true -> s a = s b -> a = b) /\
+      (forall k, has_node G' k = true <-> exists n, has_node G n = true /\ k = s n) /\
+      (forall n a, label G n = Some a ->
+         exists a', label G' (s n) = Some a' /\
+                    a_el a' = a_el a /\ a_ar a' = a_ar a /\ a_hc a' = a_hc a /\ a_ch a' = a_ch a /\ a_tgh a' = a_tgh a) /\
+      (forall u v, has_node G u = true -> has_node G v = true -> adj G' (s u) (s v) = adj G u v) in
+    mol_ok r = true -> mol_ok p = true -> balanced r p = true -> eo_covers r p eo = true ->
+    mol_ok r' = true -> mol_ok p' = true -> balanced r' p' = true -> eo_covers r' p' eo' = true ->
+    ren r r' -> ren p p' ->
+    let A := gml_to_its (smart_to_gml r p eo true false explicit_h) in
+    let A' := gml_to_its (smart_to_gml r' p' eo' true false explicit_h) in
+    (forall k, has_node A' k = true <-> exists n, has_node A n = true /\ k = s n) /\
+    (forall n e q q', label A n = Some (gml_node n e q q') -> label A' (s n) = Some (gml_node (s n) e q q')) /\
+    (forall u v, has_node A u = true -> has_node A v = true -> adj A' (s u) (s v) = adj A u v).
+Proof.
+  intros s r p r' p' eo eo' eh ren Hr Hp Hb He Hr' Hp' Hb' He' (R1 & R2 & R3 & R4) (S1 & S2 & S3 & S4).
+  apply (rule_renumbering s r p r' p' eo eo' eh Hr Hp Hb He Hr' Hp' Hb' He');
+    [exact (Build_renamed s r r' R1 R2 R3 R4)|exact (Build_renamed s p p' S1 S2 S3 S4)].
+Qed.
+Print Assumptions C10_rule_renumbering.
+
+(** KNOWN FINDING smiles_to_graph:use_index_as_atom_map:partial-mapping-id-collision (code kept as it is; known_findings.d/C10.json).
+    SMILES -> graph loses an atom under the non-default flag use_index_as_atom_map=True (with drop_non_aam=False) on a PARTIALLY
+    mapped molecule: mapped atoms are numbered by their map number, unmapped atoms by index + 1, and the two ranges overlap.
+    Witness [CH3:2]C: a well-formed molecule with distinct map numbers, two atoms, ONE node (with a self-loop) in the graph, and
+    graph_to_mol fails on it; with the default flags the same molecule converts to two nodes and back.  Fully mapped and unmapped
+    molecules and rsmi_to_graph (drop_non_aam=True) are unaffected; the oracle emits the finding's key exactly when an unmapped
+    atom's index + 1 equals another atom's map number. *)
+Theorem C10_partial_mapping_id_collision_refuted :
+  exists m : rmol, wf_mol m = true /\ nodupb (map fst (numT (fst m))) = true /\
+    List.length (gnodes (mol_to_graph m false true)) = 1%nat /\ List.length (fst m) = 2%nat /\
+    graph_to_mol (mol_to_graph m false true) = None /\
+    List.length (gnodes (mol_to_graph m false false)) = 2%nat /\ graph_to_mol (mol_to_graph m false false) <> None.
+Proof. exact partial_mapping_id_collision_refuted. Qed.
+Print Assumptions C10_partial_mapping_id_collision_refuted.
